@@ -32,6 +32,7 @@ import Sipsp.Proofs.MsgL1
 import Sipsp.Proofs.TokParamL1
 import Sipsp.Proofs.MsgL1Body
 import Sipsp.Proofs.UriListsL
+import Sipsp.Proofs.FLine
 
 namespace Sipsp.C03
 open Sipsp
@@ -98,7 +99,7 @@ theorem stable_msg (b s : Buf) (o : Nat) (m : PSIPMsg) (flags : Nat) (hok : msgO
     (he : e ≠ .moreBytes) (hx : ¬ bodyToEnd flags m') :
     parseSIPMsg (b ++ s) o m flags = (o', e, m') := parseSIPMsg_stable b s o m flags hok hfit hnf hr he hx
 
-/-- … from any object produced by Init, with caller arrays of any capacity (or none) -/
+/-- … from any object produced by Init, with ZEROED caller arrays of any capacity (or none) -/
 theorem stable_msg_init (b s : Buf) (o : Nat) (ho : o ≤ b.size) (m0 : PSIPMsg) (len kh kc : Nat)
     (hdrs cts : Option Unit) (flags : Nat) (hfit : b.size ≤ 65535)
     (hnf : hasFlag flags SIPMsgNoMoreDataF = false) {o' : Nat} {e : Err} {m' : PSIPMsg}
@@ -182,5 +183,13 @@ theorem stable_generic {σ : Type} (m : Machine σ) (b s : Buf) (hst : StepStabl
 /-! ### non-vacuity -/
 example : (parseCallIDVal #[97, 64, 98, 13, 10, 88] 0 {}).2.1 = Err.ok := by decide +kernel
 example : (skipLWS #[32, 13, 10, 88] 0 0) = (1, 2, Err.eoh) := by decide +kernel
+
+/-! ### token / line scanners (proved in `Sipsp.Proofs.FLine`) -/
+
+/-- if the scan stopped on a byte of `b`, it stops there on every extension -/
+theorem stable_skipToken : type_of% @Sipsp.skipToken_stable := @Sipsp.skipToken_stable
+
+/-- `skipLine`: a definitive result is stable -/
+theorem stable_skipLine : type_of% @Sipsp.skipLine_stable := @Sipsp.skipLine_stable
 
 end Sipsp.C03
